@@ -60,8 +60,9 @@ Definition validate_response (r : response_head) (validate_inbound_headers : boo
 (* ---------- sending: Http1Client.send *)
 Definition client_send_headers (request : request_head) : list cmd := [Send (assemble_request_head request)].
 
+(* an empty data event never becomes a chunk (a zero-length chunk is the last-chunk): /repo d5b92a7b2 *)
 Definition client_send_data (request : request_head) (data : bytes) : list cmd :=
-  let raw := if send_chunked (rq_headers request) then emit_chunk data else data in
+  let raw := if nonempty data && send_chunked (rq_headers request) then emit_chunk data else data in
   match raw with [] => [] | _ => [Send raw] end.
 
 Definition MINUS1 : Z := (-1)%Z.
@@ -82,7 +83,7 @@ Definition forward_request (request : request_head) (chunks : list bytes) : res 
 Definition server_send_headers (response : response_head) : list cmd := [Send (assemble_response_head response)].
 
 Definition server_send_data (response : response_head) (data : bytes) : list cmd :=
-  let raw := if send_chunked (rs_headers response) then emit_chunk data else data in
+  let raw := if nonempty data && send_chunked (rs_headers response) then emit_chunk data else data in
   match raw with [] => [] | _ => [Send raw] end.
 
 (* 1xx, 204 and 304 never have a body (fixes/C01-no-last-chunk-after-bodiless-response.diff) *)
